@@ -139,12 +139,12 @@ def kw_verbatim():
     for adapter in ("reduce", "elementwise"):
         got = {}
         if adapter == "reduce":
-            def user(t, axis, *, opt=None):
+            def user(t, axis, *, opt="<the function's own default>"):
                 got["opt"] = opt
                 return np.asarray(np.sum(t, axis=axis))
             ad, call = einx.numpy.adapt_numpylike_reduce(user), (lambda v: ad("a [b]", x, opt=v))
         else:
-            def user(t, u, *, opt=None):  # noqa
+            def user(t, u, *, opt="<the function's own default>"):  # noqa
                 got["opt"] = opt
                 return np.asarray(t + u)
             ad, call = einx.numpy.adapt_numpylike_elementwise(user), (lambda v: ad("a b, a b", x, x, opt=v))
